@@ -446,7 +446,66 @@ fn mutate(bytes: &mut Vec<u8>, rng: &mut StdRng) -> Vec<String> {
 
 /// Files that no model image stands for: random bytes of a valid size, optionally behind a
 /// signature, a valid metadata copy, or a valid metadata copy and an empty journal.
+/// A structured device LARGER than the window recovery scans at a time (256 blocks): records (single- and
+/// multi-block, up to more than a hundred blocks), complete and unfinished retirements and single damaged
+/// blocks, with extents placed so that they start, end or are skipped across the window boundaries.
+fn windowed_file(blocks: u64, damaged: bool, rng: &mut StdRng) -> (Vec<u8>, u32, Vec<String>) {
+    let mut bytes = vec![0u8; blocks as usize * B];
+    let fmt = 1 + rng.random_range(0..3) as u32;
+    put(&mut bytes, 0, &L::encode_meta(fmt, 2, 0, 0, blocks * B as u64));
+    let mut notes = vec![format!("windowed v{fmt} {blocks} blocks{}", if damaged { " damaged" } else { "" })];
+    let mut s = L::DATA_START + rng.random_range(0..3);
+    let mut kid = 0u32;
+    while s + 2 < blocks {
+        // aim at the next window boundary now and then
+        let boundary = L::DATA_START + ((s - L::DATA_START) / 256 + 1) * 256;
+        let room = blocks - s;
+        let n: u64 = match rng.random_range(0..10) {
+            0 | 1 => 1,
+            2 => 2 + rng.random_range(0..3),
+            3 if boundary > s && boundary - s + 3 < room => boundary - s + rng.random_range(0..3),   // ends just past the boundary
+            4 => (100 + rng.random_range(0..140)).min(room.saturating_sub(1)).max(1),
+            5 => { s += rng.random_range(1..40).min(room - 1); continue; }                       // a gap
+            6 if boundary > s + 1 => { s = boundary - rng.random_range(0..2); continue; }        // jump next to the boundary
+            _ => 1 + rng.random_range(0..6),
+        }.min(room).max(1);
+        kid += 1;
+        let key = format!("w{kid:04}").into_bytes();
+        let hdr = if fmt == 1 { 22 } else { 30 } + key.len();
+        let vlen = (n as usize * B).saturating_sub(hdr + rng.random_range(0..B.min(n as usize * B - hdr - 1).max(1))).max(1);
+        let val: Vec<u8> = (0..vlen).map(|i| (i % 251) as u8 ^ kid as u8).collect();
+        let rec = L::encode_record(fmt, s, &key, &val, 1000 + kid as u64, 0);
+        let nb = (rec.len() / B) as u64;
+        if s + nb > blocks { break; }
+        match rng.random_range(0..8) {
+            0 | 1 => {
+                // a retirement: complete, or unfinished (the head says pending / the tail is still the record)
+                let state_head = if rng.random_bool(0.5) { L::STATE_COMPLETE } else { L::STATE_PENDING };
+                let upto = if rng.random_bool(0.5) { nb } else { 1 + rng.random_range(0..nb) };
+                put(&mut bytes, s as usize * B, &rec);
+                for i in 0..upto {
+                    put(&mut bytes, (s + i) as usize * B, &L::encode_marker_block(s + i, nb - i, if i == 0 { state_head } else { L::STATE_COMPLETE }));
+                }
+                notes.push(format!("marker {s}+{nb} head={state_head} written={upto}"));
+            }
+            _ => {
+                put(&mut bytes, s as usize * B, &rec);
+                if damaged && nb > 1 && rng.random_range(0..5) == 0 {
+                    let hit = s + 1 + rng.random_range(0..(nb - 1));
+                    bytes[hit as usize * B..(hit as usize + 1) * B].fill(0);
+                    notes.push(format!("zeroed block {hit} inside {s}+{nb}"));
+                }
+            }
+        }
+        s += nb;
+    }
+    (bytes, fmt, notes)
+}
+
 fn random_file(flavour: u64, blocks: u64, rng: &mut StdRng) -> (Vec<u8>, u32, Vec<String>) {
+    if flavour % 8 >= 6 {
+        return windowed_file(blocks, flavour % 8 == 7, rng);
+    }
     let mut bytes = vec![0u8; blocks as usize * B];
     if flavour % 6 >= 4 {
         // a large foreign file that is all zero except near its end (sizes that are not a whole number
@@ -496,7 +555,8 @@ fn build_item(item: &Value, t: &Table) -> Built {
             let mut rng = item_rng(item, 3);
             let flavour = item["flavour"].as_u64().unwrap_or(0);
             let blocks = item["blocks"].as_u64().unwrap_or(20);
-            let (bytes, fmt, notes) = random_file(flavour, if flavour % 6 >= 4 { blocks.clamp(17, 1100) } else { blocks.clamp(17, 64) }, &mut rng);
+            let big = flavour % 8 >= 6 || flavour % 6 >= 4;
+            let (bytes, fmt, notes) = random_file(flavour, if big { blocks.clamp(17, 1100) } else { blocks.clamp(17, 64) }, &mut rng);
             Built { bytes, fmt, ttl: item["seed"].as_u64().unwrap_or(0) % 2 == 0, notes }
         }
         kind => {
@@ -944,7 +1004,10 @@ pub fn main(args: &[String]) -> i32 {
     }
     for i in 0..o.num("random", 0usize) {
         let id = items.len() as u64;
-        items.push(json!({"id": id, "kind": "random", "seed": rng.random::<u32>(), "flavour": i % 6, "blocks": if i % 6 >= 4 { [272u64, 769, 300, 513, 1025][(i / 6) % 5] } else { 17 + rng.random_range(0..8) }}));
+        // flavours 0..5 as before (i % 6); every fifth item is a windowed device (flavour 6 intact / 14 -> 7 damaged)
+        let flavour = if i % 5 == 4 { if (i / 5) % 2 == 0 { 6 } else { 7 } } else { (i % 6) as u64 };
+        let big = flavour >= 6 || flavour % 6 >= 4;
+        items.push(json!({"id": id, "kind": "random", "seed": rng.random::<u32>(), "flavour": flavour, "blocks": if big { [272u64, 769, 300, 513, 1025, 530][(i / 6) % 6] } else { 17 + rng.random_range(0..8) }}));
     }
     let dir = o.req("dir").to_string();
     std::fs::create_dir_all(&dir).ok();
